@@ -5242,6 +5242,15 @@ class FlowIRConcrete(object):
                     inject_missing_fields=inject_missing_fields, is_primitive=is_primitive
                 )
 
+                # VV: workflowAttributes.isRepeat is a function of workflowAttributes.repeatInterval. The component
+                #     now holds the repeatInterval that the blueprints and its platform override layer on top of its
+                #     own one, but the isRepeat that was derived from its own repeatInterval alone when it was loaded
+                #     (inject_default_values_to_component). Derive it again, exactly like a FlowIRConcrete which is
+                #     built out of this instance will do, so that loading and storing an instance does not change it.
+                workflow_attributes = comp.get('workflowAttributes')
+                if isinstance(workflow_attributes, dict) and 'repeatInterval' in workflow_attributes:
+                    workflow_attributes['isRepeat'] = workflow_attributes['repeatInterval'] not in [None, 0]
+
             # VV: Fetch component FlowIR after applying blueprint inheritance without including any default variables
             comp_stages[stage].append(comp)
 
